@@ -4,12 +4,12 @@ go 1.22
 
 require (
 	github.com/anishathalye/porcupine v1.3.0
+	github.com/gorilla/websocket v1.5.3
 	go.nanomsg.org/mangos/v3 v3.0.0
 )
 
 require (
 	github.com/Microsoft/go-winio v0.6.2 // indirect
-	github.com/gorilla/websocket v1.5.3 // indirect
 	golang.org/x/sys v0.10.0 // indirect
 )
 
